@@ -45,9 +45,11 @@ type c12Cfg struct {
 	Rewrite   bool   `json:"rewrite,omitempty"`
 	Gzip      bool   `json:"gzip,omitempty"`
 	Header    bool   `json:"header,omitempty"`
-	Errors    string `json:"errors,omitempty"` // "" | plain | visible | pages | generic | missing | empty
+	Errors    string `json:"errors,omitempty"` // "" | plain | visible | pages | generic | missing | empty | genmissing | missgen
+	Redir     bool   `json:"redir,omitempty"`  // redir /rd /there 302
 	Status    int    `json:"status,omitempty"` // status <code> /st
-	Mime      bool   `json:"mime,omitempty"`
+	Mime      bool   `json:"mime,omitempty"`   // mime .txt text/x-c12
+	Internal  bool   `json:"internal,omitempty"` // internal /int
 	Templates bool   `json:"templates,omitempty"`
 }
 type c12Op struct {
@@ -61,9 +63,13 @@ type c12In struct {
 	Cfg    c12Cfg  `json:"cfg"`
 	Path   string  `json:"path"`
 	AE     bool    `json:"ae,omitempty"` // Accept-Encoding: gzip
-	Script []c12Op `json:"script,omitempty"`
+	Blen   int     `json:"blen,omitempty"` // length of the request body (POST when > 0)
+	Script []c12Op `json:"script,omitempty"` // op "read" = the handler reads the request body here
 	Ret    int     `json:"ret"`
 	Err    bool    `json:"err,omitempty"`
+	Conn   int     `json:"conn,omitempty"` // sequences: requests with the same number share a connection
+	// a sequence of requests served one after the other by the same server (Path/Script unused)
+	Seq []c12In `json:"seq,omitempty"`
 }
 
 // ---------------------------------------------------------------------------------------------
@@ -109,6 +115,12 @@ func (p c12Probe) ServeHTTP(w http.ResponseWriter, r *http.Request) (int, error)
 			}
 		case "panic":
 			panic("c12 scripted panic")
+		case "read":
+			if r.Body != nil {
+				if _, err := io.ReadAll(r.Body); err == httpserver.ErrMaxBytesExceeded {
+					return http.StatusRequestEntityTooLarge, err // what proxy does
+				}
+			}
 		case "wait":
 			c12ByReached <- struct{}{}
 			select {
@@ -221,7 +233,7 @@ func c12SiteText(c c12Cfg) string {
 		sb.WriteString("request_id\n")
 	}
 	if c.Limits {
-		sb.WriteString("limits 1mb\n")
+		sb.WriteString("limits {\n body / 8\n}\n")
 	}
 	if c.Log {
 		sb.WriteString("log / " + root + "/access.log\n")
@@ -249,12 +261,22 @@ func c12SiteText(c c12Cfg) string {
 		sb.WriteString("errors " + elog + " {\n 404 nothere.html\n 500 e500.html\n}\n")
 	case "empty":
 		sb.WriteString("errors " + elog + " {\n 404 empty.html\n}\n")
+	case "genmissing": // the `*` page cannot be opened
+		sb.WriteString("errors " + elog + " {\n * nothere.html\n 403 e403.html\n}\n")
+	case "missgen": // the page of the status cannot be opened, the `*` page can
+		sb.WriteString("errors " + elog + " {\n 404 nothere.html\n * gen.html\n}\n")
+	}
+	if c.Redir {
+		sb.WriteString("redir /rd /there 302\n")
 	}
 	if c.Status != 0 {
 		fmt.Fprintf(&sb, "status %d /st\n", c.Status)
 	}
 	if c.Mime {
-		sb.WriteString("mime .foo text/x-foo\n")
+		sb.WriteString("mime .txt text/x-c12\n")
+	}
+	if c.Internal {
+		sb.WriteString("internal /int\n")
 	}
 	if c.Templates {
 		sb.WriteString("templates / .html\n")
@@ -280,6 +302,10 @@ func c12ErrorsTerm(mode string) string {
 		return cApp("EPages", cList([]string{pg(404, nil), pg(500, s(c12Page500))}), "None")
 	case "empty":
 		return cApp("EPages", cList([]string{pg(404, s(""))}), "None")
+	case "genmissing":
+		return cApp("EPages", cList([]string{pg(403, s(c12Page403))}), "(Some None)")
+	case "missgen":
+		return cApp("EPages", cList([]string{pg(404, nil)}), "(Some "+c12OptOpt(s(c12PageGen))+")")
 	}
 	panic("bad errors mode " + mode)
 }
@@ -296,7 +322,7 @@ func c12CfgTerm(c c12Cfg) string {
 		st = "(Some " + cZ(int64(c.Status)) + ")"
 	}
 	return cApp("Build_cfg", cBool(c.ReqID), cBool(c.Limits), cBool(c.Log), cBool(c.Rewrite), cBool(c.Gzip), cBool(c.Header),
-		c12ErrorsTerm(c.Errors), st, cBool(c.Mime), cBool(c.Templates))
+		c12ErrorsTerm(c.Errors), cBool(c.Redir), st, cBool(c.Mime), cBool(c.Internal), cBool(c.Templates))
 }
 
 var c12Sites = map[string]*liveSite{}
@@ -339,17 +365,29 @@ type c12Resp struct {
 	Err    string
 }
 
-func c12WriteReq(conn net.Conn, addr, path, probe string, ae, closeConn bool) error {
+func c12ReqBytes(addr, path, probe string, ae, closeConn bool, blen int) []byte {
 	var sb bytes.Buffer
-	fmt.Fprintf(&sb, "GET %s HTTP/1.1\r\nHost: %s\r\nX-C12-Probe: %s\r\n", path, addr, probe)
+	method := "GET"
+	if blen > 0 {
+		method = "POST"
+	}
+	fmt.Fprintf(&sb, "%s %s HTTP/1.1\r\nHost: %s\r\nX-C12-Probe: %s\r\n", method, path, addr, probe)
 	if ae {
 		sb.WriteString("Accept-Encoding: gzip\r\n")
 	}
 	if closeConn {
 		sb.WriteString("Connection: close\r\n")
 	}
+	if blen > 0 {
+		fmt.Fprintf(&sb, "Content-Length: %d\r\n", blen)
+	}
 	sb.WriteString("\r\n")
-	_, err := conn.Write(sb.Bytes())
+	sb.WriteString(strings.Repeat("b", blen))
+	return sb.Bytes()
+}
+
+func c12WriteReq(conn net.Conn, addr, path, probe string, ae, closeConn bool) error {
+	_, err := conn.Write(c12ReqBytes(addr, path, probe, ae, closeConn, 0))
 	return err
 }
 
@@ -369,7 +407,7 @@ func c12ReadResp(br *bufio.Reader) c12Resp {
 
 // c12Exchange sends the case request and then the follow-up ("ok" script) on the same
 // connection; when the server has closed the connection the follow-up uses a new one.
-func c12Exchange(addr, path, probe string, ae bool) (c12Resp, bool, bool) {
+func c12Exchange(addr, path, probe string, ae bool, blen int) (c12Resp, bool, bool) {
 	conn, err := net.DialTimeout("tcp", addr, 2*time.Second)
 	if err != nil {
 		return c12Resp{Err: "dial: " + err.Error()}, false, false
@@ -378,18 +416,22 @@ func c12Exchange(addr, path, probe string, ae bool) (c12Resp, bool, bool) {
 	conn.SetDeadline(time.Now().Add(8 * time.Second))
 	br := bufio.NewReader(conn)
 	var r1 c12Resp
-	if err := c12WriteReq(conn, addr, path, probe, ae, false); err != nil {
+	if _, err := conn.Write(c12ReqBytes(addr, path, probe, ae, false, blen)); err != nil {
 		r1 = c12Resp{Err: "write: " + err.Error()}
 	} else {
 		r1 = c12ReadResp(br)
 	}
 	okResp := func(r c12Resp) bool {
-		return r.Err == "" && r.Status == 200 && string(r.Body) == "c12-ok" && r.Header.Get("X-C12") == "f"
+		if r.Err != "" || r.Status != 200 || r.Header.Get("X-C12") != "f" {
+			return false
+		}
+		v, garbled := c12View(r.Header, r.Body)
+		return !garbled && string(v) == "c12-ok"
 	}
 	reused := false
 	var r2 c12Resp
 	if r1.Err == "" {
-		if err := c12WriteReq(conn, addr, "/f.txt", "ok", false, true); err == nil {
+		if err := c12WriteReq(conn, addr, "/f.html", "ok", true, true); err == nil {
 			r2 = c12ReadResp(br)
 			reused = r2.Err == ""
 		}
@@ -401,7 +443,7 @@ func c12Exchange(addr, path, probe string, ae bool) (c12Resp, bool, bool) {
 		}
 		defer c2.Close()
 		c2.SetDeadline(time.Now().Add(8 * time.Second))
-		if err := c12WriteReq(c2, addr, "/f.txt", "ok", false, true); err != nil {
+		if err := c12WriteReq(c2, addr, "/f.html", "ok", true, true); err != nil {
 			return r1, false, false
 		}
 		r2 = c12ReadResp(bufio.NewReader(c2))
@@ -471,6 +513,35 @@ func c12OpsTerm(ops []c12Op) string {
 	return cList(it)
 }
 
+// c12Rd is the place of the "read" op among the modelled ops ("None" when the body is never read)
+func c12Rd(ops []c12Op) string {
+	n := 0
+	for _, o := range ops {
+		switch o.K {
+		case "read":
+			return "(Some " + cNat(n) + ")"
+		case "set", "wh", "w", "f", "panic":
+			n++
+		}
+	}
+	return "None"
+}
+
+// c12Effective is the script the handler gets to run: cut at a read that fails
+func c12Effective(in *c12In) *c12In {
+	out := *in
+	for i, o := range in.Script {
+		if o.K == "read" {
+			if in.Cfg.Limits && in.Blen > 8 {
+				out.Script = append([]c12Op{}, in.Script[:i]...)
+				out.Ret, out.Err = 413, true
+				return &out
+			}
+		}
+	}
+	return &out
+}
+
 // ---------------------------------------------------------------------------------------------
 // input classes (computed from the input only)
 
@@ -482,6 +553,8 @@ func c12EffPath(in *c12In) string {
 }
 
 type c12Shape struct {
+	redir      bool
+	internal   bool
 	statusRule bool
 	touched    bool // WriteHeader/Write/Flush before the end / the panic
 	panics     bool
@@ -494,6 +567,8 @@ type c12Shape struct {
 func c12ShapeOf(in *c12In) c12Shape {
 	var s c12Shape
 	ep := c12EffPath(in)
+	s.redir = in.Cfg.Redir && ep == "/rd"
+	s.internal = in.Cfg.Internal && strings.HasPrefix(ep, "/int")
 	s.statusRule = in.Cfg.Status != 0 && strings.HasPrefix(ep, "/st")
 	ext := filepath.Ext(ep)
 	ct := ""
@@ -531,10 +606,26 @@ func c12ShapeOf(in *c12In) c12Shape {
 	return s
 }
 
-func c12Sig(in *c12In) string {
+func c12Sig(in0 *c12In) string {
+	if len(in0.Seq) > 0 {
+		return "sequence"
+	}
+	in := c12Effective(in0)
 	s := c12ShapeOf(in)
+	if s.redir {
+		return "redir"
+	}
 	if s.statusRule {
 		return "status-rule"
+	}
+	if s.internal {
+		return "internal-location"
+	}
+	if len(in.Script) != len(in0.Script) {
+		if s.touched {
+			return "limits-413:after-writing"
+		}
+		return "limits-413"
 	}
 	switch {
 	case s.panics && s.touched:
@@ -566,9 +657,191 @@ func c12Sig(in *c12In) string {
 
 var c12Seq int
 
+type c12Observed struct {
+	term   string
+	respOK bool
+	sup    int
+	obs    map[string]interface{}
+}
+
+// c12Observe turns a response into the observation term (sup is counted by the caller)
+func c12Observe(r1 c12Resp, sup int) c12Observed {
+	respOK := r1.Err == ""
+	view, garbled := c12View(r1.Header, r1.Body)
+	if i := bytes.Index(view, []byte("[PANIC ")); i >= 0 {
+		view = append(append([]byte{}, view[:i]...), []byte("[PANIC]")...)
+	}
+	// the message of text/template's parse error is not modelled: it is replaced by the probe's
+	if i := bytes.Index(view, []byte("] template: ")); i >= 0 && bytes.HasPrefix(view, []byte("[ERROR 500 ")) {
+		if j := bytes.IndexByte(view[i:], '\n'); j >= 0 {
+			view = append(append(append([]byte{}, view[:i]...), []byte("] c12err")...), view[i+j:]...)
+		}
+	}
+	// ErrMaxBytesExceeded's text under errors visible: the probe's error text in the model
+	view = bytes.Replace(view, []byte("] http: request body too large\n"), []byte("] c12err\n"), 1)
+	if garbled {
+		view = nil
+	}
+	xprobe := "None"
+	if v, ok := r1.Header["X-C12"]; ok && len(v) > 0 {
+		xprobe = "(Some " + cStr(v[0]) + ")"
+	}
+	_, xcfg := r1.Header["X-Cfg"]
+	_, xdel := r1.Header["X-Del"]
+	mime := r1.Header.Get("Content-Type") == "text/x-c12"
+	loc := r1.Header.Get("Location") == "/there"
+	term := cApp("Build_obs", cZ(int64(r1.Status)), cBool(garbled), cBytes(view), cNat(sup), xprobe, cBool(xcfg), cBool(xdel), cBool(mime), cBool(loc))
+	bh := r1.Body
+	if len(bh) > 80 {
+		bh = bh[:80]
+	}
+	o := map[string]interface{}{"status": r1.Status, "ce": r1.Header["Content-Encoding"], "ct": r1.Header.Get("Content-Type"),
+		"view": fmt.Sprintf("%q", view), "wire_head": fmt.Sprintf("%q", bh), "garbled": garbled, "superfluous_writeheader": sup,
+		"x_c12": r1.Header["X-C12"], "x_cfg": xcfg, "x_del": xdel, "location": r1.Header.Get("Location"), "err": r1.Err}
+	return c12Observed{term: term, respOK: respOK, sup: sup, obs: o}
+}
+
+func c12ReqTerm(in *c12In) string {
+	return cApp("Build_req", cStr(in.Path), cBool(in.AE), cN(uint64(in.Blen)), c12Rd(in.Script), c12OpsTerm(in.Script), cZ(int64(in.Ret)), cBool(in.Err))
+}
+
+// c12RunSeq: every request is first served alone (own connection), then all of them are sent
+// again - requests with the same Conn number pipelined on one connection, the connections
+// concurrently - and every response must equal the one of the solo run.
+func c12RunSeq(in *c12In) Result {
+	site, err := c12Site(c12SiteText(in.Cfg))
+	if err != nil {
+		return Result{Term: "CSkip", Obs: "setup: " + err.Error(), Sig: "setup-error", Class: "setup-error"}
+	}
+	n := len(in.Seq)
+	ids := make([]string, n)
+	c12Scripts.Lock()
+	for i := range in.Seq {
+		c12Seq++
+		ids[i] = fmt.Sprintf("s%d", c12Seq)
+		c12Scripts.m[ids[i]] = c12Script{script: in.Seq[i].Script, ret: in.Seq[i].Ret, err: in.Seq[i].Err}
+	}
+	c12Scripts.Unlock()
+	defer func() {
+		c12Scripts.Lock()
+		for _, id := range ids {
+			delete(c12Scripts.m, id)
+		}
+		c12Scripts.Unlock()
+	}()
+	allOK := true
+	solo := make([]c12Observed, n)
+	soloSup := 0
+	for i := range in.Seq {
+		q := &in.Seq[i]
+		sup0, ep0 := c12SupCount()
+		var r c12Resp
+		conn, err := net.DialTimeout("tcp", site.addr, 2*time.Second)
+		if err != nil {
+			r = c12Resp{Err: "dial: " + err.Error()}
+		} else {
+			conn.SetDeadline(time.Now().Add(8 * time.Second))
+			if _, err := conn.Write(c12ReqBytes(site.addr, q.Path, ids[i], q.AE, true, q.Blen)); err != nil {
+				r = c12Resp{Err: "write: " + err.Error()}
+			} else {
+				r = c12ReadResp(bufio.NewReader(conn))
+			}
+			conn.Close()
+		}
+		time.Sleep(time.Millisecond)
+		sup1, ep1 := c12SupCount()
+		sup := sup1 - sup0
+		if ep0 != ep1 {
+			sup = sup1
+		}
+		soloSup += sup
+		solo[i] = c12Observe(r, sup)
+		if !solo[i].respOK {
+			allOK = false
+		}
+	}
+	// the sequence
+	byConn := map[int][]int{}
+	var order []int
+	for i := range in.Seq {
+		if _, ok := byConn[in.Seq[i].Conn]; !ok {
+			order = append(order, in.Seq[i].Conn)
+		}
+		byConn[in.Seq[i].Conn] = append(byConn[in.Seq[i].Conn], i)
+	}
+	seqResp := make([]c12Resp, n)
+	sup0, ep0 := c12SupCount()
+	var wg sync.WaitGroup
+	for _, cn := range order {
+		idx := byConn[cn]
+		wg.Add(1)
+		go func(idx []int) {
+			defer wg.Done()
+			conn, err := net.DialTimeout("tcp", site.addr, 2*time.Second)
+			if err != nil {
+				for _, i := range idx {
+					seqResp[i] = c12Resp{Err: "dial: " + err.Error()}
+				}
+				return
+			}
+			defer conn.Close()
+			conn.SetDeadline(time.Now().Add(10 * time.Second))
+			var all bytes.Buffer
+			for k, i := range idx {
+				q := &in.Seq[i]
+				all.Write(c12ReqBytes(site.addr, q.Path, ids[i], q.AE, k == len(idx)-1, q.Blen))
+			}
+			if _, err := conn.Write(all.Bytes()); err != nil {
+				for _, i := range idx {
+					seqResp[i] = c12Resp{Err: "write: " + err.Error()}
+				}
+				return
+			}
+			br := bufio.NewReader(conn)
+			for _, i := range idx {
+				seqResp[i] = c12ReadResp(br)
+			}
+		}(idx)
+	}
+	wg.Wait()
+	time.Sleep(2 * time.Millisecond)
+	sup1, ep1 := c12SupCount()
+	seqSup := sup1 - sup0
+	if ep0 != ep1 {
+		seqSup = sup1
+	}
+	if seqSup != soloSup {
+		allOK = false
+	}
+	var items []string
+	var obsList []interface{}
+	for i := range in.Seq {
+		// the superfluous-WriteHeader diagnostics of concurrent requests cannot be told apart:
+		// their total is compared above, each observation carries the solo count
+		so := c12Observe(seqResp[i], solo[i].sup)
+		if !so.respOK {
+			allOK = false
+		}
+		items = append(items, cPair(cPair(c12ReqTerm(&in.Seq[i]), so.term), solo[i].term))
+		obsList = append(obsList, map[string]interface{}{"path": in.Seq[i].Path, "conn": in.Seq[i].Conn, "seq": so.obs, "solo": solo[i].obs})
+	}
+	term := cApp("CSeq", c12CfgTerm(in.Cfg), cList(items), cBool(allOK))
+	pan := 0
+	for i := range in.Seq {
+		if c12ShapeOf(&in.Seq[i]).panics {
+			pan++
+		}
+	}
+	return Result{Term: term, Obs: map[string]interface{}{"requests": obsList, "seq_sup": seqSup, "solo_sup": soloSup, "site": c12SiteText(in.Cfg)},
+		Sig: "sequence", Class: fmt.Sprintf("sequence:conns=%d:panics=%d", len(order), pan), Nontrivial: pan > 0 && n > pan}
+}
+
 func c12Run(in0 interface{}) Result {
 	in := in0.(*c12In)
 	c12Register()
+	if len(in.Seq) > 0 {
+		return c12RunSeq(in)
+	}
 	site, err := c12Site(c12SiteText(in.Cfg))
 	sig := c12Sig(in)
 	if err != nil {
@@ -584,7 +857,7 @@ func c12Run(in0 interface{}) Result {
 		delete(c12Scripts.m, id)
 		c12Scripts.Unlock()
 	}()
-	shape := c12ShapeOf(in)
+	shape := c12ShapeOf(c12Effective(in))
 
 	// a concurrent in-flight request that must not be disturbed by a panic next to it
 	bystanderOK := true
@@ -613,7 +886,7 @@ func c12Run(in0 interface{}) Result {
 	}
 
 	sup0, ep0 := c12SupCount()
-	r1, followOK, reused := c12Exchange(site.addr, in.Path, id, in.AE)
+	r1, followOK, reused := c12Exchange(site.addr, in.Path, id, in.AE, in.Blen)
 	if !reused {
 		time.Sleep(2 * time.Millisecond) // the handler goroutine of a dropped connection may still be logging
 	}
@@ -635,43 +908,18 @@ func c12Run(in0 interface{}) Result {
 		}
 	}
 
-	respOK := r1.Err == ""
-	view, garbled := c12View(r1.Header, r1.Body)
-	if i := bytes.Index(view, []byte("[PANIC ")); i >= 0 {
-		view = append(append([]byte{}, view[:i]...), []byte("[PANIC]")...)
-	}
-	// the message of text/template's parse error is not modelled: it is replaced by the probe's
-	if i := bytes.Index(view, []byte("] template: ")); i >= 0 && bytes.HasPrefix(view, []byte("[ERROR 500 ")) {
-		if j := bytes.IndexByte(view[i:], '\n'); j >= 0 {
-			view = append(append(append([]byte{}, view[:i]...), []byte("] c12err")...), view[i+j:]...)
-		}
-	}
-	if garbled {
-		view = nil
-	}
-	xprobe := "None"
-	if v, ok := r1.Header["X-C12"]; ok && len(v) > 0 {
-		xprobe = "(Some " + cStr(v[0]) + ")"
-	}
-	_, xcfg := r1.Header["X-Cfg"]
-	_, xdel := r1.Header["X-Del"]
-	obs := cApp("Build_obs", cZ(int64(r1.Status)), cBool(garbled), cBytes(view), cNat(sup), xprobe, cBool(xcfg), cBool(xdel))
-	codes := []int{500, in.Ret}
+	ob := c12Observe(r1, sup)
+	codes := []int{500, 404, 413, in.Ret}
 	if in.Cfg.Status != 0 {
 		codes = append(codes, in.Cfg.Status)
 	}
-	term := cApp("CReq", c12CfgTerm(in.Cfg), cStr(in.Path), cBool(in.AE), c12OpsTerm(in.Script), cZ(int64(in.Ret)), cBool(in.Err),
-		c12Texts(codes...), obs, cBool(respOK), cBool(followOK), cBool(bystanderOK))
-	bh := r1.Body
-	if len(bh) > 80 {
-		bh = bh[:80]
-	}
-	o := map[string]interface{}{"status": r1.Status, "ce": r1.Header["Content-Encoding"], "ct": r1.Header.Get("Content-Type"),
-		"view": fmt.Sprintf("%q", view), "wire_head": fmt.Sprintf("%q", bh), "garbled": garbled, "superfluous_writeheader": sup,
-		"x_c12": r1.Header["X-C12"], "x_cfg": xcfg, "x_del": xdel, "err": r1.Err, "followup_ok": followOK, "conn_reused": reused,
-		"bystander_ok": bystanderOK, "site": c12SiteText(in.Cfg)}
+	term := cApp("CReq", c12CfgTerm(in.Cfg), cStr(in.Path), cBool(in.AE), cN(uint64(in.Blen)), c12Rd(in.Script), c12OpsTerm(in.Script), cZ(int64(in.Ret)), cBool(in.Err),
+		c12Texts(codes...), ob.term, cBool(ob.respOK), cBool(followOK), cBool(bystanderOK))
+	o := ob.obs
+	o["followup_ok"], o["conn_reused"], o["bystander_ok"], o["site"] = followOK, reused, bystanderOK, c12SiteText(in.Cfg)
 	n := 0
-	for _, b := range []bool{in.Cfg.Log, in.Cfg.Gzip && in.AE, in.Cfg.Header, in.Cfg.Errors != "", in.Cfg.Status != 0, in.Cfg.Templates} {
+	for _, b := range []bool{in.Cfg.Log, in.Cfg.Gzip && in.AE, in.Cfg.Header, in.Cfg.Errors != "", in.Cfg.Status != 0, in.Cfg.Templates,
+		in.Cfg.Redir, in.Cfg.Internal, in.Cfg.Mime, in.Cfg.Limits && in.Blen > 0, in.Cfg.Rewrite} {
 		if b {
 			n++
 		}
@@ -684,6 +932,7 @@ func c12Run(in0 interface{}) Result {
 
 var c12ErrModes = []string{"", "plain", "visible", "pages", "generic", "missing", "empty"}
 var c12Paths = []string{"/x.html", "/x.txt", "/x", "/st/x.html", "/rw/a.txt", "/dir/y.html", "/st"}
+var c12ErrModesAll = []string{"", "plain", "visible", "pages", "generic", "missing", "empty", "genmissing", "missgen"}
 var c12Bodies = []string{"hello", "<html><body>c12 body</body></html>", "a", "line1\nline2\n", "plain text with {braces} and }} only", "{{"}
 
 func c12Chunks(r *Rand, b string) []c12Op {
@@ -826,57 +1075,188 @@ func c12RandomScript(r *Rand) c12In {
 }
 
 func c12RandomCfg(r *Rand) c12Cfg {
-	c := c12Cfg{ReqID: r.Bool(), Limits: r.Bool(), Log: r.Bool(), Rewrite: r.Bool(), Gzip: r.Bool(), Header: r.Bool(), Mime: r.Bool(), Templates: r.Bool()}
-	c.Errors = r.Pick(c12ErrModes)
+	c := c12Cfg{ReqID: r.Bool(), Limits: r.Bool(), Log: r.Bool(), Rewrite: r.Bool(), Gzip: r.Bool(), Header: r.Bool(), Mime: r.Bool(), Templates: r.Bool(),
+		Redir: r.Bool(), Internal: r.Bool()}
+	c.Errors = r.Pick(c12ErrModesAll)
 	if r.Chance(30) {
 		c.Status = []int{404, 204, 403, 500, 301, 200, 410}[r.Intn(7)]
 	}
 	return c
 }
 
+// c12SubsetCfg builds the configuration with exactly the wrappers of mask (bit order = canonical
+// nesting order: request_id limits log rewrite gzip header errors redir status mime internal templates)
+func c12SubsetCfg(r *Rand, mask int) c12Cfg {
+	c := c12Cfg{ReqID: mask&1 != 0, Limits: mask&2 != 0, Log: mask&4 != 0, Rewrite: mask&8 != 0, Gzip: mask&16 != 0, Header: mask&32 != 0,
+		Redir: mask&128 != 0, Mime: mask&512 != 0, Internal: mask&1024 != 0, Templates: mask&2048 != 0}
+	if mask&64 != 0 {
+		c.Errors = r.Pick(c12ErrModesAll[1:])
+	}
+	if mask&256 != 0 {
+		c.Status = []int{404, 204, 403, 301, 599}[r.Intn(5)]
+	}
+	return c
+}
+
+// c12WithBody makes the handler read a request body at a random place of its script
+func c12WithBody(r *Rand, in *c12In) {
+	in.Blen = []int{4, 20, 9, 8}[r.Intn(4)]
+	// before the handler writes: once net/http has sent the header it has itself consumed the
+	// request body, and a later read through the limit reader sees EOF (outside the model)
+	first := len(in.Script)
+	for i, o := range in.Script {
+		if o.K == "wh" || o.K == "w" || o.K == "f" {
+			first = i
+			break
+		}
+	}
+	k := r.Intn(first + 1)
+	sc := append([]c12Op{}, in.Script[:k]...)
+	sc = append(sc, c12Op{K: "read"})
+	in.Script = append(sc, in.Script[k:]...)
+}
+
+func c12SeqCase(r *Rand) *c12In {
+	c := c12RandomCfg(r)
+	if r.Chance(70) {
+		c.Templates = true
+	}
+	if r.Chance(70) {
+		c.Gzip = true
+	}
+	c.Limits = false
+	html := c12Op{K: "set", A: "Content-Type", B: "text/html; charset=utf-8"}
+	pn := c12Op{K: "panic"}
+	w := func(s string) c12Op { return c12Op{K: "w", D: s} }
+	n := r.Range(3, 6)
+	conns := r.Range(1, 3)
+	in := &c12In{Cfg: c}
+	for i := 0; i < n; i++ {
+		var q c12In
+		switch r.Intn(6) {
+		case 0: // panics while templates buffers / after streaming
+			q = c12In{Script: []c12Op{html, w("left behind by a panicking request "), w("0123456789"), pn}}
+		case 1:
+			q = c12In{Script: []c12Op{w("streamed"), {K: "f"}, pn}}
+		case 2:
+			q = c12In{Script: []c12Op{pn}}
+		case 3:
+			q = c12In{Ret: []int{404, 500, 403}[r.Intn(3)], Err: r.Bool()}
+		default:
+			q = c12RandomScript(r)
+		}
+		q.Path = r.Pick([]string{"/x.html", "/x.html", "/y.html", "/x.txt", "/x", "/rd", "/int/a.html", "/st/x.html"})
+		q.AE = r.Chance(75)
+		q.Conn = r.Intn(conns)
+		in.Seq = append(in.Seq, q)
+	}
+	return in
+}
+
 func c12Gen(r *Rand, tier string) []interface{} {
 	r = NewRand(r.U64())
 	var out []interface{}
-	nRandCfg, perCfg := 60, 30
+	nRandCfg, perCfg, nTriples, perSubset, nSeq := 40, 25, 40, 8, 120
 	if tier == "thorough" {
-		nRandCfg, perCfg = 700, 60
+		nRandCfg, perCfg, nTriples, perSubset, nSeq = 500, 60, 0, 6, 1500
 	}
 	pickPath := func(c c12Cfg) string {
 		if c.Status != 0 && r.Chance(25) {
 			return r.Pick([]string{"/st/x.html", "/st"})
 		}
+		if c.Redir && r.Chance(12) {
+			return "/rd"
+		}
+		if c.Internal && r.Chance(12) {
+			return r.Pick([]string{"/int/x.html", "/int"})
+		}
 		return r.Pick(c12Paths[:6])
 	}
-	// systematic: every subset of the response-relevant wrappers x the core scripts
-	var cfgs []c12Cfg
+	add := func(c c12Cfg, in c12In) {
+		in.Cfg = c
+		in.Path = pickPath(c)
+		in.AE = r.Chance(60)
+		if r.Chance(12) && in.Path != "/rd" { // http.Redirect answers GET and POST differently
+			c12WithBody(r, &in)
+		}
+		out = append(out, &in)
+	}
+	// systematic 1: every subset of log/gzip/header/templates x errors variants x the core scripts
 	for mask := 0; mask < 16; mask++ {
 		for _, em := range c12ErrModes {
 			c := c12Cfg{Log: mask&1 != 0, Gzip: mask&2 != 0, Header: mask&4 != 0, Templates: mask&8 != 0, Errors: em,
-				ReqID: r.Bool(), Limits: r.Bool(), Rewrite: r.Bool(), Mime: r.Bool()}
+				ReqID: r.Bool(), Limits: r.Bool(), Rewrite: r.Bool(), Mime: r.Bool(), Redir: r.Bool(), Internal: r.Bool()}
 			if r.Chance(35) {
 				c.Status = []int{404, 204, 403, 301}[r.Intn(4)]
 			}
-			cfgs = append(cfgs, c)
+			for _, in := range c12CoreScripts(r) {
+				add(c, in)
+			}
 		}
 	}
-	for _, c := range cfgs {
-		for _, in := range c12CoreScripts(r) {
-			in := in
-			in.Cfg = c
-			in.Path = pickPath(c)
-			in.AE = r.Chance(60)
+	// systematic 2: the subset lattice of the twelve wrappers (canonical nesting order) x a sample
+	// of the core scripts + the requests the self-answering directives catch
+	var masks []int
+	if tier == "thorough" {
+		for m := 0; m < 4096; m++ {
+			masks = append(masks, m)
+		}
+	} else {
+		for i := 0; i < 12; i++ {
+			masks = append(masks, 1<<i)
+			for j := i + 1; j < 12; j++ {
+				masks = append(masks, 1<<i|1<<j)
+			}
+		}
+		for t := 0; t < nTriples; t++ {
+			masks = append(masks, 1<<r.Intn(12)|1<<r.Intn(12)|1<<r.Intn(12)|1<<r.Intn(12))
+		}
+		masks = append(masks, 4095, 4095&^64)
+	}
+	core := c12CoreScripts(r)
+	for _, m := range masks {
+		c := c12SubsetCfg(r, m)
+		for k := 0; k < perSubset; k++ {
+			add(c, core[r.Intn(len(core))])
+		}
+		for _, p := range []string{"/rd", "/int/x.html", "/st/x.html", "/x.txt"} {
+			if (p == "/rd" && !c.Redir) || (p == "/int/x.html" && !c.Internal) || (p == "/st/x.html" && c.Status == 0) || (p == "/x.txt" && !c.Mime) {
+				continue
+			}
+			in := core[r.Intn(len(core))]
+			in.Cfg, in.Path, in.AE = c, p, r.Bool()
 			out = append(out, &in)
 		}
+	}
+	// systematic 3: which error body - every errors variant x statuses (with and without reason
+	// phrase, with and without a page) x error x gzip
+	for _, em := range c12ErrModesAll {
+		for _, code := range []int{404, 403, 500, 599, 451, 999} {
+			for k := 0; k < 4; k++ {
+				c := c12Cfg{Errors: em, Gzip: k&1 != 0, Log: r.Bool(), Header: r.Bool(), Templates: r.Bool()}
+				in := c12In{Cfg: c, Path: r.Pick(c12Paths[:3]), AE: true, Ret: code, Err: k&2 != 0}
+				out = append(out, &in)
+			}
+		}
+	}
+	// limits: a body over / under the limit read before / after writing
+	for k := 0; k < 40; k++ {
+		c := c12RandomCfg(r)
+		c.Limits = k%4 != 0
+		in := core[r.Intn(len(core))]
+		in.Cfg, in.Path, in.AE = c, r.Pick(c12Paths[:3]), r.Bool()
+		c12WithBody(r, &in)
+		out = append(out, &in)
 	}
 	for i := 0; i < nRandCfg; i++ {
 		c := c12RandomCfg(r)
 		for j := 0; j < perCfg; j++ {
-			in := c12RandomScript(r)
-			in.Cfg = c
-			in.Path = pickPath(c)
-			in.AE = r.Chance(60)
-			out = append(out, &in)
+			add(c, c12RandomScript(r))
 		}
+	}
+	// sequences: panicking and normal requests interleaved on the same and on different connections
+	for i := 0; i < nSeq; i++ {
+		out = append(out, c12SeqCase(r))
 	}
 	return out
 }
@@ -896,7 +1276,7 @@ func init() {
 	_ = sort.Strings
 	register(&Property{
 		ID: "C12", Imports: "V.Lib V.C12_Model", Judge: "judge", Shard: 400,
-		Rule: "every case = one real HTTP/1.1 round trip (plus a follow-up request on the same connection, and for panicking handlers a concurrent in-flight request) against an in-process casket site made of a subset of log/gzip/header/errors(6 variants)/status/templates/request_id/limits/rewrite/mime around a scripted innermost handler; non-trivial = at least two response-relevant wrappers are active for the request; distinct = distinct case term",
+		Rule: "every case = one real HTTP/1.1 round trip (plus a follow-up request on the same connection that goes through templates' buffer pool and gzip's writer pool, and for panicking handlers a concurrent in-flight request) against an in-process casket site made of a subset of request_id/limits/log/rewrite/gzip/header/errors(8 variants)/redir/status/mime/internal/templates around a scripted innermost handler, or a sequence of 3-6 such requests (panicking ones included) served alone and then pipelined on one to three concurrent connections; non-trivial = at least two response-relevant wrappers are active for the request (sequences: a panicking and a normal request); distinct = distinct case term",
 		Gen: c12Gen,
 		Decode: func(raw json.RawMessage) (interface{}, error) {
 			in := &c12In{}
